@@ -27,9 +27,11 @@ func init() { registerCases("C10", c10Case) }
 
 func c10Case(run *evid.Run, i int, j *Journal) {
 	rng := rand.New(rand.NewSource(run.Seed*5915587 + int64(i)))
-	h := hx.Gen(run.Seed, i, hx.GenOpts{MaxSteps: pick(run.Tier, 30, 50), Orders: []string{"default", "hash"}, MaxReplicas: 4,
-		Codecs: []string{[]string{"cbor", "cbor", "cbor", "link"}[i%4]}, // a same-key reader loads length-limited too
-		Shapes: []string{"mixed", "widefork", "diamond", "lopsided", "overlap", "ring"}})
+	h := hx.Gen(run.Seed, i, hx.GenOpts{MaxSteps: pick(run.Tier, 30, 50), Orders: []string{"default", "hash", "fww"}, MaxReplicas: 4,
+		HugeOften: true,
+		Failures:  i%3 == 2,                                                // refused operations, forks, and (an eighth of those) replicas whose clocks start far ahead: gaps in the clock values
+		Codecs:    []string{[]string{"cbor", "cbor", "cbor", "link"}[i%4]}, // a same-key reader loads length-limited too
+		Shapes:    []string{"mixed", "widefork", "diamond", "lopsided", "overlap", "ring"}})
 	run.Count("cases_codec_"+h.Codec, 1)
 	for k := range h.Steps {
 		if h.Steps[k].Op == "append" && rng.Intn(2) == 0 {
